@@ -4,6 +4,18 @@ VERIF = os.path.dirname(os.path.dirname(os.path.abspath(__file__)))
 ALL = ["C%02d" % i for i in range(1, 21)]
 
 CLAIMS = {
+ "C11": dict(
+    text="Coq/MathComp theorems for every operator expression tree, every size, operand width and commutative ring with "
+         "involution: mv/mm apply the expression's matrix, rmv/rmm its conjugate transpose, fullmatrix returns it; no product "
+         "reaches a NotImplementedError stub for any subset of optional methods; the simplifying constructors preserve the "
+         "matrix; capability flags are those of the class itself for every class table and instantiation history. The "
+         "dispatch model (plain Gallina) is run by vm_compute against the implementation: the structure the operators build "
+         "and the exact sequence of user-level products each of the five operations calls, plus the flag state machine.",
+    note="Trusted: Coq kernel + vm_compute; tracing harness. Modelled: torch.matmul, autograd adjoint = conjugate transpose, "
+         "user's optional methods agree with _mv. Values/batch broadcasting/shape errors are an exact dense-reference oracle "
+         "on the implementation (integers / Gaussian integers).",
+    technique="Coq/MathComp proof by induction on operator expressions + exact call-trace correspondence of the dispatch model",
+    ref="DESIGN.md section 7, C11"),
  "C07": dict(
     text="Coq theorems: every Runge-Kutta order condition (all rooted trees up to the declared order, enumeration "
          "proved complete) for the five tableaux as regenerated from /repo on every run - rk4/rk38 order exactly 4, "
